@@ -17,7 +17,7 @@ def gq(x):
 
 def gen_case(rng):
     T = rng.randint(1, 6); F = rng.randint(8, 40)
-    df = float(rng.choice([1, 2, 4])); dt = float(rng.choice([1, 2]))
+    df = float(rng.choice([1, 2, 4, 0.125, 0.0625, 16])); dt = float(rng.choice([1, 2]))      # "all frame geometries": channels much finer and coarser than 1 Hz
     asc = rng.random() < 0.5
     fmin = float(rng.choice([1000, 4096]))
     fch1 = fmin if asc else fmin + (F - 1) * df
@@ -47,7 +47,7 @@ def gen_case(rng):
 def run(ctx):
     rng = ctx.rng
     quick = ctx.tier == "quick"
-    ctx.rule = ("frames 1-6 x 8-40 on an exact grid, both orientations; start frequency on / a quarter / almost half a channel off a channel centre, "
+    ctx.rule = ("frames 1-6 x 8-40 on an exact grid (channel widths 1/16 .. 16 Hz), both orientations; start frequency on / a quarter / almost half a channel off a channel centre, "
                 "inside, at the edge of and outside the band (8 %: far outside, sweeping through the whole band); drift 0, +-1/16 .. +-4 channels per step; width 1/16 .. 10 channels; box, sinc2, gaussian, "
                 "lorentzian, voigt; smearing on/off; non-trivial = the general signal is non-zero somewhere; distinct = distinct case")
     ctx.assumptions = ["compact profiles (box, truncated sinc^2) are compared everywhere, tailed ones inside the FWHM of each row (and 'general value or zero' elsewhere)",
